@@ -55,7 +55,8 @@ _COQ8 = _COQ + ["RefCount/ProofsC08.v", "RefCount/ProofsC08b.v"]
 _COQMON = ["RefCount/ProofsC08.v", "RefCount/ProofsC08b.v", "RefCount/ProofsC09.v", "RefCount/ProofsC10.v", "RefCount/ProofsC10a.v", "RefCount/ProofsC10b.v",
            "RefCount/ProofsCodec.v", "RefCount/ProofsMon.v", "RefCount/ProofsMon2.v", "RefCount/ProofsMon3.v", "RefCount/ProofsMon4.v", "RefCount/ProofsMon5.v",
            "RefCount/ProofsMon6.v", "RefCount/ProofsMon7.v", "RefCount/ProofsMonG.v", "RefCount/ProofsMon8.v", "RefCount/ProofsMon9.v", "RefCount/ProofsMon10.v",
-           "RefCount/ProofsMon11.v", "RefCount/ProofsMon12.v", "RefCount/ProofsMon13.v", "RefCount/ProofsMonThm.v"]
+           "RefCount/ProofsMon11.v", "RefCount/ProofsMon12.v", "RefCount/ProofsMon13.v", "RefCount/ProofsMon14.v", "RefCount/ProofsMon15.v",
+           "RefCount/ProofsMon16.v", "RefCount/ProofsMonThm.v"]
 
 PROPS = {
     "C08": dict(pid=8, coq=_COQ + _COQMON + ["RefCount/Props_C08.v"], props_file="RefCount/Props_C08.v", models=_MODELS, trusted=_TRUSTED, assumptions=_ASSUME,
@@ -72,7 +73,9 @@ PROPS = {
                          "context, a released() section of the current generation, a removeRef section that leaves no reference (and not "
                          "keep+resolved+no error), or the store section of a superseded goroutine (its own, never delivered result). The codec "
                          "produces only generation-unique resolver values (lemma about Spec.hstep). Model tied to the code by scheduled differential "
-                         "correspondence; monitors (once; target/refs at release; allowed causes; no leak) run on the implementation's observations.",
+                         "correspondence; monitors (once; target/refs at release; allowed causes; no leak) run on the implementation's observations. "
+                         "Monitors tied to the model for ALL event lists and every configuration (model_satisfies_monitors_clauses): on the model's own "
+                         "observations the clauses 8.1-8.4 are never false.",
                     note=NOTE + "Resolver values are generation-unique (g+1), or empty together with an error (then 'the target does not hold that value' is vacuous: the target never holds the empty value; what is proved and monitored is: the target does not hold g+1 and no reference in the set still has the result as last notification). "
                                 "'Shortly after' = by an enabled internal step (store section) or within the same critical section. Gate placement trusted.",
                     technique=_TECH)),
@@ -87,7 +90,10 @@ PROPS = {
                          "state, hence for references added later. released() of the stored generation clears value and containers and starts a "
                          "goroutine of a new generation. No event list makes the model panic (AddRef(nil) on a resolved container: D9 repaired; the "
                          "pinned variant is a _refuted theorem); every API call is one total section (no deadlock). Monitors on the implementation's "
-                         "observations: <= 1 goroutine in the resolver, AddRef never panics, quiescent => in progress or delivered, released() restarts.",
+                         "observations: <= 1 goroutine in the resolver, AddRef never panics, quiescent => in progress or delivered, released() restarts. "
+                         "Monitors tied to the model for ALL event lists and every configuration (model_satisfies_monitors_clauses): clauses 9.1-9.5 are never "
+                         "false on the model's own observations (incl.: after the eager schedule no blocked goroutine has its wake-up condition; with context, "
+                         "reference and nothing resolved the newest goroutine is of the current generation, also under a cancelled root context).",
                     note=NOTE + "Liveness is quiescence safety (fairness of the Go scheduler is not modelled). 'No deadlock' = every API call is a single "
                                 "mutex section that never waits; the lock discipline itself is C13's obligation. Progress is claimed while the installed "
                                 "root context is not cancelled by its owner: with a cancelled (not cleared) context a queued resolve goroutine may return "
@@ -110,7 +116,11 @@ PROPS = {
                          "inside its callback; Canceled for a cancelled caller. The seeded ABA variant is a _refuted theorem. Monitors on the "
                          "implementation's observations: clauses 10.1-10.3 as before; 10.4 value passed = current value; 10.5 invalidated => "
                          "callback context cancelled; 10.6 callback result returned only from an unraced invocation, re-invocation at quiescence; "
-                         "10.7 resolver error / Canceled returned as such.",
+                         "10.7 resolver error / Canceled returned as such. Monitors tied to the model for ALL event lists (model_satisfies_monitors_clauses): "
+                         "clauses 10.1-10.3 for every configuration (new invariants: every value a Wait/Resolve/ResolveWithReleased consumer was given is the "
+                         "empty value or a finished goroutine's; a WaitWithReleased consumer that was given a result, is still in the set and has not fired "
+                         "implies that very result is still stored), 10.4 and 10.5 for the generation-unique configurations; 10.6 / 10.7 (and 10.4 / 10.5 in the "
+                         "constant-value configuration) are NOT proved about the monitors' bookkeeping.",
                     note=NOTE + "Not proved in Coq (checked by monitor clause 10.1 on every trace): that a Wait/ResolveWithReleased consumer's "
                                 "returned value is one of the delivered generation values. Access's private Broadcast is not gated: S1/S2 and the "
                                 "wake-up are consumer steps that the theorems allow to be delayed arbitrarily; the harness realises the eager "
